@@ -289,6 +289,7 @@ class Machine(object):
         self.assumed = []       # conditions assumed false because the other edge throws
         self.steps = 0
         self.trace_calls = set()
+        self.hooks = None       # optional object with .construct(frame, n, loc) -> bool and .call(frame, n, ...) -> None | (value,)
 
     # -- memory
     def new_region(self, tag, default=None):
@@ -1052,7 +1053,13 @@ class Frame(object):
         if callee is None:
             raise Unsupported("indirect call (line %s)" % n.get("l"))
         objinfo, argn = self.args_of(n)
+        if m.hooks is not None:
+            h = m.hooks.call(self, n, callee, cname, objinfo, argn)
+            if h is not None:
+                return h[0]
         # builtins and libc
+        if cname == "__builtin_expect" and argn:
+            return self.rv(argn[0])
         if cname in ("__builtin_bswap16", "__builtin_bswap32", "__builtin_bswap64", "__bswap_16", "__bswap_32", "__bswap_64"):
             v = self.rv(argn[0])
             w = int("".join(ch for ch in cname if ch.isdigit()))
@@ -1076,6 +1083,12 @@ class Frame(object):
             m.store_bits(d.loc.region, d.loc.off, byte * ln)
             return d
         cq = n.get("cqual") or ""
+        if cq == "std::distance" and len(argn) == 2:
+            a_, b_ = self.rv(argn[0]), self.rv(argn[1])
+            if isinstance(a_, Ptr) and isinstance(b_, Ptr) and a_.loc is not None and b_.loc is not None and a_.loc.region == b_.loc.region:
+                ew = type_bits(a_.loc.t) or 8
+                return BV.const(((b_.loc.off - a_.loc.off) // ew) & ((1 << 64) - 1), 64)
+            raise Unsupported("std::distance of unrelated iterators")
         if cq in ("std::copy", "std::copy_n", "std::fill", "std::fill_n", "std::memcpy", "std::memset", "std::equal"):
             vals = [self.rv(a) for a in argn]
             if cq == "std::copy" and all(isinstance(x, Ptr) and x.loc is not None for x in vals[:3]) and vals[0].loc.region == vals[1].loc.region:
@@ -1150,6 +1163,8 @@ class Frame(object):
     def construct(self, n, loc):
         """run constructor call n on storage loc"""
         m = self.m
+        if m.hooks is not None and m.hooks.construct(self, n, loc):
+            return
         callee = n.get("callee")
         c = n.get("c", [])
         fs = m.db.functions.get(callee) if callee else None
